@@ -3,7 +3,9 @@ import glob
 import json
 import os
 import re
+import shutil
 import subprocess
+import time
 
 import tlaparse
 import vp
@@ -238,6 +240,18 @@ def validate(chk, trace_path, nodes, invariants=None, module="TraceG", extra_con
                 v.drift += int(c[0])
                 v.f2 += int(c[1])
                 v.f4 += int(c[2])
+                if int(c[0]) > 0:
+                    # keep the trace of a chunk the specification could not follow, for diagnosis
+                    try:
+                        dd = os.path.join(vp.OUT, "drift")
+                        os.makedirs(dd, exist_ok=True)
+                        old = sorted(glob.glob(os.path.join(dd, "*.ndjson")), key=os.path.getmtime)
+                        for f in old[:-9]:
+                            os.remove(f)
+                        shutil.copyfile(os.path.join(r["wd"], "trace.ndjson"),
+                                        os.path.join(dd, "%s-%s-%d.ndjson" % (module, label, int(time.time()))))
+                    except OSError:
+                        pass
             tr = res.printed("TRACE-RESULT")
             if res.violated:
                 m = re.search(r"^/\\ l = (\d+)", res.out[res.out.rfind("Error: Invariant"):] if "Error: Invariant" in res.out else res.out, re.M)
